@@ -6,6 +6,7 @@ tree / a key removed / a key nulled, or one of each) x channel; the real parser'
 with Model/C06Validate.v (tie) and Spec/C06Spec.v (the property)."""
 import copy
 import json
+import sys
 
 from tie.framework import g_bool, g_list, g_nat, g_pair, g_str, g_Z, run_impl_parallel
 
@@ -51,6 +52,9 @@ ASSUMPTIONS = [
     "required keys: a rejected attempt changes nothing, an accepted link exempts exactly its target. Links applied on parse "
     "(value propagation, target not settable) are property C15's and are not generated",
     "dict_kwargs (documented escape for unresolved **kwargs) is treated as declared and opaque; never generated",
+    "for parsers with a link history only single mutations are generated (one error at a time): an accepted link removes its "
+    "target from the defaults, which changes the key order of the merged namespace and thereby WHICH of two simultaneous errors "
+    "is reported first (both are genuine; observed with seed 7: foreign key p.zz and null list-item field r.d[0]._t)",
     "order in which several simultaneous errors are reported is modelled for check_values (depth, then key order) but "
     "_apply_actions' breadth-first queue is modelled depth-first; generated cases carry at most one insertion and one removal",
 ]
@@ -417,8 +421,10 @@ def mutants(rng, p, cfg, tier):
                 c2[s]["zz"] = 7
                 out.append(("insert", c2))
                 break
-    # pairs: one removal + one insertion
-    for _ in range(3 if tier == "quick" else 10):
+    # pairs: one removal + one insertion.  Not for parsers with a link history: WHICH of two simultaneous errors is reported
+    # first follows the key order of the merged namespace (defaults first), and an accepted link takes its target out of the
+    # defaults, which moves that key (or its whole group) behind the others; that order is not modelled (ASSUMPTIONS)
+    for _ in range(0 if p.get("links") else (3 if tier == "quick" else 10)):
         if rem and maps:
             path, may_null = rng.choice(rem)
             c = remove(cfg, path, may_null and rng.random() < 0.5)
@@ -592,6 +598,22 @@ def shrink(case):
         if ch != case["channel"]:
             yield dict(case, channel=ch)
             break
+
+
+def search(rng, tier, broken):
+    """bounded failing-input search after a broken proof / tie: one extra quick-size batch (at most 1500 cases) with a fresh
+    stream; returns the first case that contradicts the property inside the guard or in an unlisted class"""
+    from tie import framework as F
+
+    cases = generate(rng, "quick")[:1500]
+    obs = observe(cases)
+    bm, bi, bo = F.judge_cases(sys.modules[__name__], cases, obs, tag="x")
+    known = F.load_known_findings(PROP)
+    bad = sorted(set(bi) | {i for i, k in bo if FINDING_CLASSES.get(k) not in known})
+    if not bad:
+        return None
+    i = bad[0]
+    return {"case": cases[i], "observed": obs[i], "explain": describe(cases[i], obs[i])}
 
 
 META = {
